@@ -189,7 +189,9 @@ Definition validate_array (a : array) : list error :=
   e1 ++ e2 ++ e3.
 
 (* _validate_in_range(value_type, value) *)
-Definition cv_is_name (v : cvalue) (n : string) : bool := match v with CvName s => pyeqs vo_enum_eq (Some s) (Some n) | CvNum _ => false end.
+(* value == enum_value.name: an int never equals a str *)
+Definition cv_is_name (v : cvalue) (n : string) : bool :=
+  match v with CvName s => pyeqs vo_enum_eq (Some s) (Some n) | CvNum _ => pyeqs vo_enum_eq None (Some n) end.
 Definition numeric_errors (v : cvalue) : list error :=
   match v with CvNum _ => [] | CvName _ => [mk MNotNumeric [str_cvalue v]] end.
 Definition validate_in_range (ty : ftype) (v : cvalue) : result (list error) :=
